@@ -43,7 +43,7 @@ def correspondences(tier, rng):
         ts = []
         for t in tags:
             ln = rng.choice([0, 1, 2, 3, 4, 5, 7, 8, 11, 12, 13, 16, 54, rng.randint(0, 90)])
-            if t == b"head" and rng.chance(85): ln = max(ln, 12 + rng.randint(0, 60))
+            if t == b"head" and rng.chance(70): ln = max(ln, 12 + rng.randint(0, 60))    # the rest: a damaged head, down to 0 bytes
             ts.append((list(t), list(rng.bytes(ln))))
         num = k if not rng.chance(6) else k + rng.choice([-1, 1])
         ver = rng.choice([b"\0\1\0\0", b"OTTO", b"true"])
@@ -61,18 +61,21 @@ def correspondences(tier, rng):
         r = impl_write(x)
         if isinstance(r, Err): return None
         ver, num, ts = x
-        if any(bytes(t) == b"head" and len(d) < 12 for t, d in ts): return None
         P = []
         try:
             tabs = sfntspec.check_sfnt(bytes(r.v), problems=P)
         except sfntspec.Invalid as e:
             return "independent reader rejects the file: %s" % e
         if num == 0: P = [p for p in P if "numTables == 0" not in p]
+        # a damaged head table without room for checkSumAdjustment cannot make the file sum to 0xB1B0AFBA; what is asked of such a
+        # file is that every table comes back exactly as written
+        if any(bytes(t) == b"head" and len(d) < 12 for t, d in ts): P = [p for p in P if "whole-file checksum" not in p]
         for t, d in ts:
             got = tabs.get(bytes(t))
             if got is None: P.append("table %r missing" % bytes(t)); continue
             if bytes(t) == b"head":
-                if got[:8] != bytes(d)[:8] or got[12:] != bytes(d)[12:]: P.append("head content changed")
+                if len(got) != len(d) or got[:8] != bytes(d)[:8] or got[12:] != bytes(d)[12:]: P.append("head content changed")
+                if len(d) < 12 and got != bytes(d): P.append("a head table without room for checkSumAdjustment was modified")
             elif got != bytes(d): P.append("table %r content changed" % bytes(t))
         return "; ".join(P) if P else None
     out.append(Corr("write_sfnt", cases, impl_write, oracle=oracle_write))
